@@ -107,7 +107,9 @@ class T(object):
     def __ne__(s, o): return s._b("ne", o)
     def __hash__(s):
         tick("hash")
-        return id(s) >> 4
+        # by name, not by address: the iteration order of a set of operand objects must be the same in the three
+        # builds (separate processes), otherwise their logs differ for a reason that has nothing to do with the code
+        return zlib.crc32(s.n.encode()) & 0x3fffffff
     def __getattr__(s, name):
         if name.startswith("__"):
             raise AttributeError(name)
